@@ -116,6 +116,8 @@ def build(node, nfa, alphabet):
             if hit:
                 nfa.add(s, c, e)
     elif k in ("bol", "eol"):
+        if getattr(node, "flags", {}).get("m"):
+            raise rx.RxError("an anchor under the multi-line flag is a line anchor, not a whole-text anchor")
         nfa.add_eps(s, e)
     else:
         raise rx.RxError("unsupported node " + k)
